@@ -184,6 +184,9 @@ func OnBlock(fn func(what string)) {}
 // LocksHeld: number of mutexes the current (model) thread holds; 0 natively. INTERCEPTED.
 func LocksHeld() int { return 0 }
 
+// MutexFree: nobody (no model thread) holds the mutex behind the pointer; true natively. INTERCEPTED.
+func MutexFree(mutexPtr any) bool { return true }
+
 // Freeze marks everything reachable from the given roots as shared state:
 // an unlocked store into it afterwards is reported. INTERCEPTED.
 func Freeze(roots ...any) {}
